@@ -123,10 +123,18 @@ def _inv(d):
     return out
 
 
+PINNED_FAMILY_NAMES = {'ipv4': (1, 1), 'ipv4_mcast': (1, 2), 'ipv6': (2, 1), 'ipv4_lu': (1, 4), 'ipv6_lu': (2, 4), 'flowspec': (1, 133),
+                       'vpnv4': (1, 128), 'vpnv6': (2, 128), 'evpn': (25, 70), 'bgpls': (16388, 71), 'ipv4_srte': (1, 73),
+                       'ipv6_flowspec': (2, 133)}
+PINNED_ADDPATH_NAMES = {'receive': 1, 'send': 2, 'both': 3}
+
+
 def canon_capa(d):
     """capa_dict of Open.parse in the numeric shape the model prints"""
-    afi_safi_inv = _inv(_c.AFI_SAFI_DICT)
-    act_inv = _inv(_c.ADD_PATH_ACT_DICT)
+    # the NAMES under which the agent reports address families and ADD-PATH directions are part of its interface (handler
+    # callbacks, REST answers, the message log): they are pinned here, not read back from the code under test
+    afi_safi_inv = dict(PINNED_FAMILY_NAMES)
+    act_inv = dict(PINNED_ADDPATH_NAMES)
     out = {}
     unknown = []
     for k, v in d.items():
@@ -137,7 +145,8 @@ def canon_capa(d):
         elif k == 'afi_safi':
             out[k] = [list(x) for x in v]
         elif k == 'add_path':
-            out[k] = [list(afi_safi_inv[e['afi_safi']]) + [act_inv[e['send/receive']]] for e in v]
+            out[k] = [(list(afi_safi_inv[e['afi_safi']]) if e['afi_safi'] in afi_safi_inv else ['name', str(e['afi_safi'])]) +
+                      [act_inv.get(e['send/receive'], str(e['send/receive']))] for e in v]
         elif k == 'LLGR':
             out[k] = [list(e['afi_safi']) + [e['time']] for e in v]
         elif k == 'ext_nexthop':
